@@ -141,8 +141,9 @@ def run(rep):
             [(tc.GT, 'new group'), (tc.GT, 'extend flag')] + tc.MATCHER_FUNCS + tc.PASS_FUNCS + tc.JOINER_FUNCS
     common.load_contracts()
     from contracts.sql import ACCESSOR_TOTAL
-    from contracts.filters import CASE_LAYOUT_CASES
-    funcs = funcs + list(ACCESSOR_TOTAL) + [('sqlparse.sql.IdentifierList.get_identifiers', 'body')] + list(CASE_LAYOUT_CASES)
+    from contracts.filters import CASE_LAYOUT_CASES, OUTPUT_FILTER_CASES
+    funcs = funcs + list(ACCESSOR_TOTAL) + [('sqlparse.sql.IdentifierList.get_identifiers', 'body')] + list(CASE_LAYOUT_CASES) \
+        + list(OUTPUT_FILTER_CASES)
     return generic.run_generic(
         rep, funcs, structural=[replay_options, validation_dominates, closer_sites_agree, rec],
         assumptions=['option values range over None | bool | int | float (finite, inf, nan) | str | other object; objects '
@@ -152,7 +153,7 @@ def run(rep):
                      'Function shape: a Parenthesis child], get_alias, get_real_name, get_name, has_alias, _get_first_name, '
                      'get_parent_name, get_token_at_offset on an arbitrary well-formed node); get_cases, get_identifiers '
                      'as generators, and the tree filters (StripComments, StripWhitespace, '
-                     'SpacesAroundOperators, Reindent, AlignedIndent, output filters) are covered by the bounded stand-in '
+                     'SpacesAroundOperators, Reindent, AlignedIndent) are covered by the bounded stand-in; the two output filters are total (proved) '
                      '(token soups x 14 option sets, accessor walk) only',
                      'RecursionError: obligations of C15'],
         trusted=['CPython re engine'])
